@@ -165,13 +165,58 @@ DEF_GLOBALS = {
 }
 
 
+def _regularize_rangeslice(start, stop, posstep, hasstart, hasstop, length):
+    """Reference meaning of awkward_regularize_rangeslice (include/awkward/kernel-utils.h: "regularize a Python
+    slice"): Python's own slice.indices, not a transcription of the C helper."""
+    if length < 0:
+        raise Skip("negative-list-length")
+    a, b, _ = slice(start if hasstart else None, stop if hasstop else None, 1 if posstep else -1).indices(length)
+    return a, b
+
+
+# helpers that C calls by reference and the definitions call by value: `helper(a, b, ...)` as a statement is read as
+# `a, b = helper(a, b, ...)` (DESIGN.md 5 C13 class B: repair where the intended meaning is unambiguous; done here
+# because /repo is never modified by a check)
+BYREF_HELPERS = {"awkward_regularize_rangeslice": (_regularize_rangeslice, 2)}
+
+
+def repair_definition(source):
+    """-> (source', names of repaired helper calls)"""
+    import ast
+    tree = ast.parse(source)
+    repaired = []
+
+    class T(ast.NodeTransformer):
+        def visit_Expr(self, node):
+            c = node.value
+            if isinstance(c, ast.Call) and isinstance(c.func, ast.Name) and c.func.id in BYREF_HELPERS:
+                n = BYREF_HELPERS[c.func.id][1]
+                if all(isinstance(a, ast.Name) for a in c.args[:n]):
+                    repaired.append(c.func.id)
+                    tgt = ast.Tuple(elts=[ast.Name(id=a.id, ctx=ast.Store()) for a in c.args[:n]], ctx=ast.Store())
+                    return ast.copy_location(ast.Assign(targets=[tgt], value=c), node)
+            return node
+    tree = T().visit(tree)
+    ast.fix_missing_locations(tree)
+    return tree, repaired
+
+
 def compile_definition(name, source):
     """-> python function, or None when the YAML carries no definition (class C)."""
     if not source or "def " not in source:
         return None
     g = dict(DEF_GLOBALS)
-    exec(compile(source, "<definition of %s>" % name, "exec"), g)
-    return g.get(name)
+    code = source
+    fn_repaired = []
+    if any(h in source for h in BYREF_HELPERS):
+        code, fn_repaired = repair_definition(source)
+        for h in fn_repaired:
+            g[h] = BYREF_HELPERS[h][0]
+    exec(compile(code, "<definition of %s>" % name, "exec"), g)
+    fn = g.get(name)
+    if fn is not None:
+        fn.repaired = sorted(set(fn_repaired))
+    return fn
 
 
 # ----------------------------------------------------------------------------------------------------------
@@ -202,30 +247,36 @@ class Fixed(object):
         raise Skip("replay-reads-unset-element")
 
 
-def explore(roots, fixed, body, cap):
+def explore(roots, fixed, body, cap, hard_cap=None):
     """Breadth-first (by deviation count) enumeration of all choice sequences of ``body``.
 
     roots: list of prefixes whose first ``fixed`` positions are enumerated eagerly (scalar tuples).
-    body(ctx) is run once per sequence and does the work.  Returns (runs, completed_levels, exhausted):
-    after ``completed_levels`` = L every sequence with fewer than L deviations behind the root has been run."""
+    body(ctx) is run once per sequence, does the work and returns True when the candidate counted (was inside the
+    contract).  ``cap`` bounds the counted candidates, ``hard_cap`` all runs.  Returns (runs, counted,
+    completed_levels, exhausted): after ``completed_levels`` = L every sequence with fewer than L deviations behind
+    the root has been run."""
+    if hard_cap is None:
+        hard_cap = 4 * cap
     frontier = list(roots)
     runs = 0
+    counted = 0
     level = 0
     while frontier:
         nxt = []
         truncated = False
         for prefix in frontier:
-            if runs >= cap:
-                return runs, level, False
+            if counted >= cap or runs >= hard_cap:
+                return runs, counted, level, False
             ctx = Ctx(prefix)
-            body(ctx)
+            if body(ctx):
+                counted += 1
             runs += 1
             if truncated:
                 continue
             tr = ctx.trace
             start = max(len(prefix), fixed)
             if start < len(tr):
-                room = cap - runs
+                room = hard_cap - runs
                 base = [c for _, c in tr[:start]]
                 for p in range(start, len(tr)):
                     n = tr[p][0]
@@ -240,13 +291,14 @@ def explore(roots, fixed, body, cap):
         level += 1
         if truncated:
             for prefix in nxt:
-                if runs >= cap:
+                if counted >= cap or runs >= hard_cap:
                     break
-                body(Ctx(prefix))
+                if body(Ctx(prefix)):
+                    counted += 1
                 runs += 1
-            return runs, level, False
+            return runs, counted, level, False
         frontier = nxt
-    return runs, level, True
+    return runs, counted, level, True
 
 
 # ----------------------------------------------------------------------------------------------------------
